@@ -88,6 +88,11 @@ public:
         // in the queue is processed below, in this thread
         while (m_pendingCount.loadAcquire() > 0
                && (QCoreApplication::instance() || m_workerBusy.loadAcquire())) {
+            // Messages accepted while no application object existed lost their wake-up event
+            // (Qt discarded it); wake the worker for them now that events are delivered again
+            if (QCoreApplication::instance() && !m_workerBusy.loadAcquire()) {
+                QCoreApplication::postEvent(m_worker, new LogEvent());
+            }
             locker.unlock();
             QThread::msleep(10);
             locker.relock();
@@ -160,8 +165,10 @@ private:
         void customEvent(QEvent *event) override
         {
             if (event->type() == LogEvent::type()) {
+                // Everything that is queued, not just one message: an earlier wake-up event may
+                // have been discarded by Qt (no application object at that time)
                 m_handler->m_workerBusy.storeRelease(1);
-                m_handler->processQueued();
+                while (m_handler->m_pendingCount.loadAcquire() > 0 && m_handler->processQueued()) { }
                 m_handler->m_workerBusy.storeRelease(0);
             }
         }
